@@ -348,6 +348,8 @@ func (g *fleetGen) weight() float64 {
 		default:
 			return float64(r.Range(1, 9)) / 3
 		}
+	case "fine": // counts whose varfloat64 encodings (of count+1) take all nine bytes: the lowest mantissa bits are set
+		return float64(r.Range(0, 60)) + float64(r.Range(1, 7))*math.Ldexp(1, -r.Range(43, 45))
 	case "tiny": // total weight below one is reachable
 		return float64(r.Range(1, 16)) * math.Ldexp(1, -r.Range(4, 10))
 	case "wide": // dyadic in (0, 2^20]
@@ -372,6 +374,9 @@ func GenFleet(prof *fleetProfile) func(r *engine.PRNG, run int, tier string) *en
 		g.regime = prof.weights[r.Intn(len(prof.weights))]
 		g.signs = prof.valueSigns[r.Intn(len(prof.valueSigns))]
 		p.Config["weights"] = g.regime
+		if g.regime == "fine" {
+			p.Config["budget"] = "52"
+		}
 		p.Config["signs"] = g.signs
 		p.Config["maporder"] = []string{"asc", "desc", "keyed", "shuffle"}[r.Pick(3, 2, 3, 2)]
 		switch r.Pick(40, 35, 25) {
@@ -744,9 +749,22 @@ func (g *fleetGen) changeMapping(n *fgNode) {
 		spec.N = []int{16, 100, 2048}[r.Intn(3)]
 	}
 	a1 := float64(n.spec.Alpha)
-	switch r.Pick(25, 30, 30, 15) {
+	switch r.Pick(25, 30, 30, 15, 10) {
 	case 0: // same mapping
 		spec.Map, spec.Alpha, spec.ByGam, spec.Gamma, spec.Offset = n.spec.Map, n.spec.Alpha, n.spec.ByGam, n.spec.Gamma, n.spec.Offset
+	case 4: // same kind and base, another index offset: the bins are only renumbered (or shifted by a fraction of a bin)
+		pb := n.m.ToProto()
+		spec.Map, spec.Alpha, spec.ByGam, spec.Gamma = n.spec.Map, n.spec.Alpha, true, engine.F64(pb.Gamma)
+		switch r.Pick(3, 3, 2, 2) {
+		case 0:
+			spec.Offset = 0
+		case 1:
+			spec.Offset = engine.F64(pb.IndexOffset + float64(r.Range(1, 50)))
+		case 2:
+			spec.Offset = engine.F64(pb.IndexOffset + 0.5)
+		default:
+			spec.Offset = engine.F64(float64(r.Range(-2000, 2000)))
+		}
 	case 1: // coarser
 		spec.Map = mappingKinds[r.Intn(3)]
 		spec.Alpha = engine.F64(math.Min(0.9, a1*r.LogUniform(1, 20)))
